@@ -1722,6 +1722,67 @@ pub mod verif_hooks {
             v
         }
 
+        /// The REAL supervision handler of the `NodeServer` (`handle_supervisor_evt`) applied to
+        /// this state for the exit (`failed = false`: `ActorTerminated`) or the failure
+        /// (`ActorFailed`) of the session `pid`. `false` when the session is unknown.
+        pub async fn session_exit(&mut self, pid: u64, failed: bool) -> bool {
+            let id = ActorId::Local(pid);
+            let Some(cell) = self
+                .state
+                .node_sessions
+                .get(&id)
+                .map(|ses| ses.actor.get_cell())
+            else {
+                return false;
+            };
+            let (me, _) = Actor::spawn(
+                None,
+                Dummy::<NodeServerMessage>(std::marker::PhantomData),
+                (),
+            )
+            .await
+            .expect("dummy node server");
+            let server = NodeServer::new(
+                0,
+                String::new(),
+                String::new(),
+                String::new(),
+                None,
+                None,
+            );
+            let evt = if failed {
+                SupervisionEvent::ActorFailed(cell.clone(), "verif".into())
+            } else {
+                SupervisionEvent::ActorTerminated(cell.clone(), None, None)
+            };
+            let handled = server
+                .handle_supervisor_evt(me.clone(), evt, &mut self.state)
+                .await
+                .is_ok();
+            cell.stop(None);
+            me.stop(None);
+            handled
+        }
+
+        /// The pids still present in `node_sessions`, `connection_ids`, `authenticated_sessions`.
+        pub fn residue(&self) -> (Vec<u64>, Vec<u64>, Vec<u64>) {
+            let sorted = |mut v: Vec<u64>| {
+                v.sort_unstable();
+                v
+            };
+            (
+                sorted(self.state.node_sessions.keys().map(|id| id.pid()).collect()),
+                sorted(self.state.connection_ids.keys().map(|id| id.pid()).collect()),
+                sorted(
+                    self.state
+                        .authenticated_sessions
+                        .iter()
+                        .map(|id| id.pid())
+                        .collect(),
+                ),
+            )
+        }
+
         pub fn shutdown(self) {
             self.state.listener.stop(None);
             for ses in self.state.node_sessions.values() {
